@@ -496,7 +496,10 @@ class CustomSD(BaseCorrelations):
                                       - 1j * tau * w))) \
                         / (1 - np.exp(-w / self.temperature))
                 else:
-                    inte = self._spectral_density(w) * np.exp(-1j * w * tau)
+                    inte = self._spectral_density(w) \
+                        * (np.exp(-1j * tau * w)
+                           + np.exp(-(1 / self.temperature * w \
+                                      - 1j * tau * w)))
                 return inte
 
         integral = _complex_integral(integrand,
@@ -571,7 +574,9 @@ class CustomSD(BaseCorrelations):
                         / (1 - np.exp(-w / self.temperature)) + 1j*tau * w)
                 else:
                     inte = self._spectral_density(w) / w ** 2 \
-                        * (np.exp(-1j * w * tau) - 1 + 1j * w * tau)
+                        * ((np.exp(-1j*tau * w) \
+                            + np.exp(-(w / self.temperature - 1j*tau * w))) \
+                           - 1 + 1j*tau * w)
                 return inte
 
         integral = _complex_integral(integrand,
